@@ -75,6 +75,8 @@ def accept_predicate(ctx, pstate):
 
     def holds(expr, toks, vals):
         """evaluate one guard over a concrete abstract stack; None=unknown"""
+        if self_attr(expr) in ('values', 'tokens'):
+            return len(vals) > 0          # the two stacks grow together
         if isinstance(expr, ast.Compare) and len(expr.ops) == 1:
             l, r = expr.left, expr.comparators[0]
             op = expr.ops[0]
